@@ -47,6 +47,9 @@ CLAIMS = {
  "C10": dict(cat="proof", ref="4/C10", tech="contract-based deductive verification with a ghost file store (existing files, file contents): _pack/_unpack/_clear_data/finalize of Output and of the time caching adapters, every read path stated over Val(entry)",
    text="Unbounded: _pack dumps exactly when 0 <= limit < total + nbytes, to a fresh file below the configured location, leaving every other file untouched; every read path (nearest, next/previous/linear/step, sum/average) is stated over the value an entry stands for, in RAM or on disk, so results do not depend on the limit; evicted and finalized entries have their files removed, nothing else is removed. Masked payloads and unit re-labelling are covered by the native adapter-history stand-in (limit 0 vs none, plain vs masked).",
    note="np.save/np.load/os.remove/os.path.join are assumed library contracts over the ghost store (np.save refuses masked arrays); file names of different slots are distinct (id prefix); Composition handing limits to slots is not yet under contract; " + TB),
+ "C20": dict(cat="proof", ref="4/C20", tech="contract-based deductive verification: static units of Output.push_data/get_data and Input.pull_data, CallbackOutput.get_data (ghost provider-call log), Composition._update_recursive through pull-based components, WeightedSum._get_data (effectful comprehension as cut loop, recursive weighted-sum spec function)",
+   text="Unbounded: a static output stores exactly one publication with time None, refuses a second one without changing anything, serves it for every request time and evicts nothing; a static input fetches once and then serves its cache without touching the source; CallbackOutput invokes its provider exactly once per pull with exactly the requested time; the recursion reaches pull-based components with the delay-adjusted time of the consumer; WeightedSum pulls every input for exactly the requested time and returns the sum of value x weight over its pairs.",
+   note="payload identity (shared memory) is not modelled deductively: the memo path of WeightedSum and multi-consumer compositions are covered by the bounded stand-in bnd_c20.py; one open known finding F20a (consumers with different steps behind one pull-based component); unit algebra of pint assumed; " + TB),
 }
 
 
